@@ -1101,7 +1101,24 @@ def mem_swap(m, ref, args, t, sp):
 
 
 def mem_take(m, ref, args, t, sp):
-    raise Unsupported("mem::take")
+    """core::mem::take: leave `Default::default()` behind, return the old value"""
+    dst = args[0]
+    old = m.read_loc(dst.cell, dst.path)
+    if is_float(old):
+        dflt = F.ZERO
+    elif isinstance(old, bool):
+        dflt = False
+    elif is_int(old):
+        dflt = 0
+    elif isinstance(old, VStruct):
+        p = m.db.find_impl_method("core::default::Default", old.path, "default")
+        if not p or p not in m.db.fns:
+            raise Unsupported("mem::take of %s" % old.path)
+        dflt = m.call_local(m.db.fns[p], [], sp)
+    else:
+        raise Unsupported("mem::take of %r" % type(old).__name__)
+    m.write_loc(dst.cell, dst.path, dflt, sp)
+    return old
 
 
 # rayon: the parallel pipeline is not executed; R-RAYON inspects the closures handed over.
@@ -1170,6 +1187,7 @@ BY_NAME = {
     "float_ord::sort": sort_floats,
     "core::mem::replace": mem_replace,
     "core::mem::swap": mem_swap,
+    "core::mem::take": mem_take,
     "core::fmt::Arguments::<'a>::from_str": fmt_noop,
     "core::fmt::Arguments::<'a>::new": fmt_noop,
     "core::fmt::Arguments::<'a>::new_const": fmt_noop,
